@@ -8,6 +8,7 @@ from sa import cfg as cfgmod
 from sa import absint
 from sa import grammar
 from sa import model
+from sa import norm
 from sa import regexlang
 from sa.model import AnalysisError
 
@@ -331,6 +332,61 @@ def class_dict(ci, name, repo=None):
     return None
 
 
+def check_quoted_values_are_decoded(repo, rep):
+    """R16g: the value of a single- or double-quoted literal is
+    decode_escapes(<the text between the quotes>) on every path that sets
+    it -- the one decoder whose escape set R16a/R16b decide.  A second
+    decoder for some literals (a JSON fast path, str.translate, ast
+    .literal_eval ...) makes one body denote different strings in different
+    quote styles."""
+    mod = repo.module(LEX)
+    n = 0
+    for name in ('t_QUOTED_STRING', 't_DOUBLE_QUOTED_STRING'):
+        fi = mod.functions.get('Lexer.' + name)
+        if fi is None:
+            raise AnalysisError('anchor vanished: Lexer.' + name)
+        tok = fi.params()[-1]
+        places = [(fi, tok)]
+        for c in model.calls_in(fi.node):
+            h = mod.functions.get(c.func.id) if isinstance(
+                c.func, ast.Name) else None
+            if h is not None and h.parent_func is None:
+                for i, a in enumerate(c.args):
+                    if isinstance(a, ast.Name) and a.id == tok and \
+                            i < len(h.params()):
+                        places.append((h, h.params()[i]))
+        stores = []
+        for g, tk in places:
+            for st in ast.walk(g.node):
+                if isinstance(st, ast.Assign):
+                    for t in st.targets:
+                        if isinstance(t, ast.Attribute) and \
+                                t.attr == 'value' and isinstance(
+                                    t.value, ast.Name) and t.value.id == tk:
+                            stores.append((g, tk, st))
+        n += 1
+        bad = []
+        for g, tk, st in stores:
+            v = norm.subst_locals(g.node, st.value, only_pure=False)
+            ok = isinstance(v, ast.Call) and repo.resolve(
+                mod, v.func, model.scope_locals(g)) in (
+                LEX + '.decode_escapes',) and len(v.args) == 1 and \
+                model.norm(v.args[0]) == '%s.value[1:-1]' % tk
+            if not ok:
+                bad.append(st)
+        rep.ob('R16g', fi.key + '/value-is-decoded-text', bool(stores) and
+               not bad,
+               'the value of the literal must be decode_escapes(%s.value'
+               '[1:-1]) wherever it is set; `%s` gives some literals '
+               'another decoder, so the same body can denote different '
+               'strings in \'...\' and "..."' % (
+                   tok, model.norm(bad[0]).split('\n')[0][:80]
+                   if bad else 'no store'),
+               loc=mod.loc(bad[0] if bad else fi.node),
+               construct=model.norm(bad[0])[:120] if bad else '')
+    return n
+
+
 def check_keywords(repo, rep):
     mod = repo.module(LEX)
     lx = mod.cls('Lexer')
@@ -619,6 +675,10 @@ def run(repo, rep):
         'keeps its language; the token actions are checked by def-use.')
     check_escapes(repo, rep)
     check_quoted_tokens(repo, rep)
+    rep.rule('R16g', 'QUOTED-VALUES-ARE-DECODED: the value of a quoted '
+             'literal is decode_escapes(text between the quotes) on every '
+             'path that sets it')
+    check_quoted_values_are_decoded(repo, rep)
     check_keywords(repo, rep)
     check_numbers(repo, rep)
     check_constant_nodes(repo, rep)
